@@ -157,6 +157,22 @@ def sibling(chain_id, level, tag):
 
 
 @m.memento_function(version="c1")
+def stage(chain_id, level, kind):
+    """Returns a partition that holds the partition chain(chain_id, level) returns as one of its values."""
+    REC.hit("stage", chain_id, level, kind)
+    from twosigma.memento.partition import InMemoryPartition
+    from twosigma.memento.storage_filesystem import OnDiskPartition
+
+    inner = chain(chain_id, level)
+    if kind == "mem":
+        return InMemoryPartition({"held": inner, "n": level})
+    out = OnDiskPartition()
+    out["held"] = inner
+    out["n"] = level
+    return out
+
+
+@m.memento_function(version="c1")
 def passthru(chain_id, level):
     """Hands on, as its own result, the partition that chain(chain_id, level) returns."""
     REC.hit("passthru", chain_id, level)
